@@ -20,6 +20,7 @@ import (
 
 	"verifharness/chain"
 	"verifharness/eng"
+	"verifharness/obs"
 	"verifharness/ref"
 )
 
@@ -276,6 +277,15 @@ func (g *Gen) Bootstrap(e *eng.Engine, refresh func()) {
 				{BatchDenom: b.Denom, Quantity: "7.5", AskPrice: coin("stake", 3), DisableAutoRetire: true},
 				{BatchDenom: b.Denom, Quantity: "2.000001", AskPrice: coin("uregen", 1000001), DisableAutoRetire: false, Expiration: &exp},
 			}})
+		}
+	}
+	// the issuer of the oldest batch mints one credit to an account that has credits of that batch in
+	// escrow (a third party's row is rewritten while it backs open sell orders)
+	if len(g.V.BatchList) > 0 {
+		first := g.V.BatchList[0]
+		if first.Open {
+			ex("mint-to-seller", &basetypes.MsgMintBatchCredits{Issuer: obs.Addr(first.Issuer), BatchDenom: first.Denom,
+				Issuance: []*basetypes.BatchIssuance{{Recipient: A[3], TradableAmount: "1"}}, OriginTx: &basetypes.OriginTx{Id: "boot-mint-1", Source: "polygon"}})
 		}
 	}
 	// one auto-retiring purchase from the oldest batch of the chain (in the "prefix" genesis that is the
